@@ -78,7 +78,7 @@ struct Model {
     }
 };
 
-enum Ins { NOP, INC_A0, INC_A1, EINT, DINT, MOD3, ST0, ST2, RETI, RETIC, REP, BR, CNTX_S, CNTX_R };
+enum Ins { NOP, INC_A0, INC_A1, EINT, DINT, MOD3, ST0, ST2, RETI, RETIC, REP, BR, CNTX_S, CNTX_R, TRIG };
 
 struct Fed {
     Ins ins;
@@ -156,6 +156,10 @@ void model_step(Model& m, const Fed& f) {
     case CNTX_S:
     case CNTX_R:
         m.swap_bank();
+        break;
+    case TRIG: // the guest itself writes the software-trigger register: the request is raised DURING this instruction,
+               // after the latches were sampled for it - it is sampled at the next boundary, not lost and not entered now
+        m.trigger(f.imm);
         break;
     }
     if (m.ie && !m.rep) {
@@ -364,7 +368,19 @@ int main(int argc, char** argv) {
             } else {
                 unsigned sel = (unsigned)g.below(100);
                 bool in_handler = depth > 0;
-                if (in_handler && sel < 22) {
+                bool latched = m.latch[0] || m.latch[1] || m.latch[2] || m.vlatch;
+                if (sel >= 94 || (latched && g.chance(2, 5))) {
+                    // mov a0l, [0x8204]: a request raised by the very instruction at whose end another one may be entered
+                    f.ins = TRIG;
+                    f.w0 = 0xD4BC;
+                    f.w1 = 0x8204;
+                    f.two = true;
+                    f.imm = (u16)(1u << g.below(16));
+                    if (g.chance(1, 3))
+                        f.imm |= (u16)(1u << g.below(16));
+                    regs.a[0] = f.imm;
+                    ctx.count(latched ? "guest_trigger_while_request_latched" : "guest_trigger");
+                } else if (in_handler && sel < 22) {
                     f.ins = g.chance(1, 2) ? RETI : RETIC;
                     f.w0 = f.ins == RETI ? 0x45C0 : 0x45D0;
                 } else if (sel < 40) {
@@ -437,7 +453,7 @@ int main(int argc, char** argv) {
             ctx.count("steps");
             if (m.last_entry >= 0) {
                 ctx.count(fmt("entries_line%d", m.last_entry));
-                static const char* ins_names[] = {"nop", "inc_a0", "inc_a1", "eint", "dint", "mod3", "st0", "st2", "reti", "retic", "rep", "br", "cntx_s", "cntx_r"};
+                static const char* ins_names[] = {"nop", "inc_a0", "inc_a1", "eint", "dint", "mod3", "st0", "st2", "reti", "retic", "rep", "br", "cntx_s", "cntx_r", "trig"};
                 ctx.seen("nt", fmt("entry:line%d:after-%s:depth%d%s", m.last_entry, ins_names[f.ins], depth > 2 ? 2 : depth,
                                    was_masked_pending ? ":was-held" : ""));
                 ++depth;
